@@ -61,6 +61,14 @@ func loadEngine(repo string, goarch string) (*Engine, error) {
 		}
 		e.cfiles[d] = cf
 	}
+	// the toolchain the repository builds with (go.mod: toolchain go1.25.0), offline
+	const tc = "/root/go/pkg/mod/golang.org/toolchain@v0.0.1-go1.25.0.linux-amd64/bin"
+	if _, err := os.Stat(tc); err == nil && !strings.Contains(os.Getenv("PATH"), tc) {
+		os.Setenv("PATH", tc+":"+os.Getenv("PATH"))
+	}
+	for k, v := range map[string]string{"GOTOOLCHAIN": "local", "GOFLAGS": "-mod=mod", "GOPROXY": "off", "GOSUMDB": "off"} {
+		os.Setenv(k, v)
+	}
 	env := os.Environ()
 	if goarch != "" {
 		env = append(env, "GOARCH="+goarch)
@@ -538,6 +546,7 @@ func (vc *VC) useLemma(name string) {
 	} else {
 		vc.decls = append(vc.decls, "(assert "+vc.mkQuant("forall", binders, vars, body[0].L[0])+")")
 	}
+	vc.usedLemmas = append(vc.usedLemmas, l)
 	vc.noteAssumption("uses lemma " + name + " (proved as its own obligation)")
 }
 
